@@ -184,10 +184,10 @@ func mergeASAACLs(ab *cmdsPair, name, prefix string) {
 	if len(appendACL) > 0 {
 		// Add ACL lines marked with [APPEND] behind last permit line.
 		// Find last permit line within entries from Netspoc.
-		i := len(acl) - 1
-		for ; i >= 0; i-- {
-			if strings.Contains(acl[i].parsed, "$NAME extended permit") {
-				i++
+		// Never insert in front of lines prepended from raw.
+		i := len(acl)
+		for ; i > len(prependACL); i-- {
+			if strings.Contains(acl[i-1].parsed, "$NAME extended permit") {
 				break
 			}
 		}
@@ -219,10 +219,10 @@ func mergeIOSACLs(ab *cmdsPair, name, prefix string) {
 	if len(appendACL) > 0 {
 		// Add ACL lines marked with [APPEND] behind last permit line.
 		// Find last permit line within entries from Netspoc.
-		i := len(acl) - 1
-		for ; i >= 0; i-- {
-			if strings.HasPrefix(acl[i].parsed, "permit ") {
-				i++
+		// Never insert in front of lines prepended from raw.
+		i := len(acl)
+		for ; i > len(prependACL); i-- {
+			if strings.HasPrefix(acl[i-1].parsed, "permit ") {
 				break
 			}
 		}
